@@ -79,6 +79,8 @@ def run(case, ctx):
             if case["bank"] == "lib" and not mlgen.bank_is_invariant(bank, D, grp):
                 return {"status": "skipped", "key": "premise-broken-see-C03", "nontrivial": False}
             layer = mlgen.perturb(mlgen.build_layer(cfg, bank, case["i"]), rng, 0.5)
+            if case["i"] % 5 == 4:
+                layer = mlgen.special_values(layer, rng)  # zero / identical rows, all-zero or all-one weight blocks
             # every third case: integer weights and integer lattice input (the multilinear part is then exact in float32,
             # so a single wrong index shows as a wrong integer); biases stay random reals
             lattice_mode = case["i"] % 3 == 2
